@@ -11,6 +11,7 @@
 -/
 import Knx.TunnelTrav
 import Knx.CloseOnce
+import Knx.Gen.Client
 
 namespace Props.C10
 open Knx Knx.Tun
@@ -158,6 +159,59 @@ example : (run (init 3) [0, 1, 0, 2, 0, 0, 0, 1, 2]).pcs = [.returned, .returned
     ∧ (run (init 3) [0, 1, 0, 2, 0, 0, 0, 1, 2]).dreqs = 1 := by decide
 
 end Closers
+
+/-! ### The shutdown path as it stands in the source
+
+`Knx.Gen.tunnelExit` and `Knx.Gen.tunnelCloseBody` are regenerated from knx/tunnel.go on every run
+(extract/client.go): the statements the worker executes when it ends and the statements of the first
+`Close`, in execution order.  The closers model above takes `joined` ("wait.Wait() returned") to mean
+"the worker has ended and has closed Inbound and ack"; that reading is sound only if the worker's
+`wait.Done()` comes after both `close` calls - before fix f8aa47d it came first (deferred last, run
+first) and `Close` could return with `Inbound` still open. -/
+namespace Shutdown
+open Knx
+
+/-- after the first `k` statements: `a` executed implies `b` executed -/
+def impliesAt (l : List String) (a b : String) (k : Nat) : Bool :=
+  !(l.take k).contains a || (l.take k).contains b
+
+/-- at every point of the execution `a` executed implies `b` executed -/
+def always (l : List String) (a b : String) : Bool :=
+  (List.range (l.length + 1)).all (impliesAt l a b)
+
+/-- at every point of the worker's exit: if `wait.Done()` has run - so that `Close` may return - then
+    Inbound has been closed -/
+theorem inbound_closed_before_close_is_released :
+    always Gen.tunnelExit "done" "close inbound" = true := by decide
+
+/-- ... and the acknowledgement channel too (pending and later Sends fail) -/
+theorem ack_closed_before_close_is_released :
+    always Gen.tunnelExit "done" "close ack" = true := by decide
+
+/-- the worker releases Close, and does each of the three things once (a second close or a second
+    Done panics) -/
+theorem worker_exit_each_once :
+    Gen.tunnelExit.count "done" = 1 ∧ Gen.tunnelExit.count "close inbound" = 1
+      ∧ Gen.tunnelExit.count "close ack" = 1 := by decide
+
+/-- Close tells the worker to stop before it waits for it (else it waits forever) -/
+theorem close_signals_before_it_waits :
+    always Gen.tunnelCloseBody "wait" "close done" = true := by decide
+
+/-- the disconnect request is handed to the socket before the socket is closed -/
+theorem disconnect_requested_before_socket_closed :
+    always Gen.tunnelCloseBody "sock.Close" "requestDisc" = true := by decide
+
+/-- the four statements the closers model steps through (`Knx.Once.step`, k = 0..3) are all there,
+    once each -/
+theorem close_body_each_once :
+    Gen.tunnelCloseBody.count "requestDisc" = 1 ∧ Gen.tunnelCloseBody.count "close done" = 1
+      ∧ Gen.tunnelCloseBody.count "wait" = 1 ∧ Gen.tunnelCloseBody.count "sock.Close" = 1 := by decide
+
+/-- the order before fix f8aa47d does not pass: `always` is not vacuous -/
+example : always ["done", "close inbound", "close ack"] "done" "close inbound" = false := by decide
+
+end Shutdown
 
 
 end Props.C10
